@@ -2,7 +2,7 @@
 """Regenerates /verif/MANIFEST.json (one place for the per-check texts)."""
 import json, subprocess
 
-COMMON_NOTE = ("Trusted: TLC and the CommunityModules Json/IOUtils; the read-only hook verif_snapshot() (cargo feature `verif`); the harness "
+COMMON_NOTE = ("Trusted: TLC and the CommunityModules Json/IOUtils (and, for the inductive invariant of C01/C02/C06, tlapm with its back ends and Apalache); the read-only hook verif_snapshot() (cargo feature `verif`); the harness "
                "projection/parsers; catch_unwind. Exhaustive parts are exhaustive for the bounded instances only; real limits by validated traces.")
 TECH = "explicit TLA+ specification + TLC; "
 
@@ -12,13 +12,16 @@ C = {
   "action properties, on every reachable state of the bounded instances; E2: every transition TLC enumerates is executed on the real Sodg to a fix-point over "
   "(spec state, full internal snapshot): all histories of any length over the small alphabets, incl. two/three groups alive and cross-group edges; E3: long biased "
   "histories at the real limits (14 groups alive, 16-member group, N labels, capacity 256, pumped GC cycles) are replayed through Trace.tla whose C01 lens follows the "
-  "OBSERVED alive set, so late or missing collection is not an alarm.",
-  TECH + "refinement Sodg => SodgSafe; spec->code product exploration; code->spec trace validation (Trace.tla, lens C01)"),
+  "OBSERVED alive set, so late or missing collection is not an alarm. Additionally the counter rules (SodgInd.tla, refined by SodgImpl) are proved with TLAPS for all sizes: "
+  "vertices disappear only in data() and only as one whole member list (SodgIndProofs.tla), and checked with Apalache at fixed sizes.",
+  TECH + "refinement Sodg => SodgSafe; inductive invariant (TLAPS, Apalache); spec->code product exploration; code->spec trace validation (Trace.tla, lens C01)"),
  "C02": ("model_checking", "5/C02",
   "E1: SodgImpl.tla (slot table, counters, sentinels; the rules of ops.rs) refines the exact model with counter = recount, and the pinned tree's rules are REJECTED by the "
   "same check (non-vacuity); E2: product closure of spec and code on bounded instances; E3: real-limit traces validated event by event against the exact model (alive set "
-  "equal after every call, no panic), pumped GC cycle shapes derived from TLC's transition system.",
-  TECH + "refinement SodgImpl => Sodg; spec->code product exploration; code->spec trace validation (lens C02)"),
+  "equal after every call, no panic), pumped GC cycle shapes derived from TLC's transition system, deterministic life-cycles at the limits (16 members, 14 groups). The counter "
+  "invariant and exact death (a group is removed exactly by the read of its last unread datum; no underflow) are proved inductive for ALL sizes with TLAPS (SodgIndProofs.tla, 423 "
+  "obligations) and independently with Apalache at fixed sizes; SodgImpl refines that module (TLC).",
+  TECH + "refinement SodgImpl => Sodg and => SodgInd; inductive invariant (TLAPS for all sizes, Apalache); spec->code product exploration; code->spec trace validation (lens C02)"),
  "C03": ("model_checking", "5/C03",
   "E1 action properties ReadBack/OthersUntouched on instances with two labels and two values; E2 compares kids()/kid() of every present vertex and the data bytes after "
   "every executed transition (overwrite in place, N+1st label guard, collections elsewhere); E3 with all three label variants and data of 0..20 bytes across the 8-byte boundary.",
@@ -36,8 +39,9 @@ C = {
  "C06": ("model_checking", "5/C06",
   "E1: SodgImpl invariants (slot free iff list empty, occupied slots = groups, reserved lists kept) on scaled slot tables explored to closure; E2: fix-point of the product (a "
   "slot leaked per cycle would keep producing new snapshots for the same abstract state); E3: every GC cycle shape in TLC's transition system pumped 4..40 times with 0/1/7/13 "
-  "background groups alive plus 14-groups-alive and 16-member traces, validated against the exact model.",
-  TECH + "SodgImpl invariants; product closure; pumped-cycle trace validation (lens C06)"),
+  "background groups alive plus 14-groups-alive and 16-member traces and deterministic life-cycles at the limits, validated against the exact model. The invariant behind it "
+  "(tags = member lists, counter = recount, so a list is emptied exactly when its group dies) is proved inductive for all sizes (TLAPS) and at fixed sizes (Apalache).",
+  TECH + "SodgImpl invariants; inductive invariant (TLAPS, Apalache); product closure; pumped-cycle trace validation (lens C06)"),
  "C07": ("exploration", "5/C07",
   "The memory-safety verdict comes from AddressSanitizer watching the harness replay histories (sampled, hence `exploration`): hundreds of short histories that each overstep "
   "one limit or precondition and keep using the object, plus the long drivers. The specification contributes the histories' classification: inside the limits -> must complete, "
